@@ -35,4 +35,23 @@ PROPS = {
         "must_hit": ["preempt:atom.swap.read", "preempt:atom.swap.applied", "point:atom.swap.retry", "porcupine_ok"],
         "race": True, "race_share": 0.4,
     },
+    "C10": {
+        "level": "exploration",
+        "design_ref": "DESIGN.md §5.2",
+        "technique": "deterministic simulation: seeded schedules of body completion vs deref/status/cancel; history obligations O1-O6 + race detector",
+        "level_text": "Seeded search over interleavings of a future's body (completing at once, at scheduler-chosen gates, at simulated instants, "
+                      "normally or by throwing, honouring or ignoring cancellation) with concurrent deref / future-done? / future-cancelled? / future-cancel "
+                      "calls with and without deadlines on the fake clock; the recorded history is checked against obligations phrased over observable events "
+                      "and event stamps only, data races by the Go race detector on the same tapes.",
+        "level_note": "Trusts the simulator, the synctest clock and ThreadSanitizer; 'completed' is defined from observable events only (body thread ended, an outcome-returning deref or a true future-done? returned earlier).",
+        "rule": "one run = one seeded tape: a creator thread defines 1-2 futures (body: value, throw, failing builtin, context-aware gate, context-ignoring gate, "
+                "sleep, busy loop, deref of the other future), 1-4 caller threads x 1-5 operations (deref with/without deadline, future-done?, future-cancelled?, "
+                "future-cancel, naps), a gatekeeper opening gates at scheduler-chosen instants, optionally a deadline on the creator's context. "
+                "non-trivial = at least 3 tasks, more than two token switches and at least one preemption inside a future.* window or one wake-up from a real blocking deref/sleep; "
+                "distinct = distinct hash of the sequence of (task, hook point) pairs at which the token changed hands",
+        "assumptions": COMMON_ASSUMPTIONS + ["a second future-cancel on an already cancelled future may return either value (the statement does not say)",
+                                             "the word 'timeout' in an error message identifies timeout-kind errors"],
+        "must_hit": ["preempt:future.delivered", "preempt:future.body-returned", "preempt:future.cancel.enter", "preempt:future.done-set", "wake:future.deref.ctx", "wake:future.deref.val", "wake:future.deref.err", "fault:creator-deadline"],
+        "race": True, "race_share": 0.4,
+    },
 }
